@@ -297,6 +297,36 @@ func runSeq(sc *Scenario, paths, patterns [][]string, observeEvery bool) (st seq
 				st.visitPanicked = true
 				stopped = true
 			}
+		case "dcpanic", "wdpanic":
+			// a delete whose condition panics the first time it is consulted (the caller recovers): nothing
+			// can have been removed before the first consultation, so the tree holds what it held, the panic
+			// reaches the caller iff a leaf matches, and the tree stays fully usable (no lock is left behind)
+			matches := len(m.Query(op.Path))
+			panicked := func() (p bool) {
+				defer func() {
+					if r := recover(); r != nil {
+						if r != "condition panics" {
+							panic(r)
+						}
+						p = true
+					}
+				}()
+				cond := func(interface{}) bool { panic("condition panics") }
+				if op.Kind == "dcpanic" {
+					t.DeleteConditional(op.Path, cond)
+				} else {
+					t.WalkDeleted(op.Path, cond, func(interface{}) {})
+				}
+				return false
+			}()
+			if panicked != (matches >= 1) {
+				return st, fmt.Errorf("op %d %s(%q) with a condition that panics when first consulted (%d leaves match): panic reached the caller=%v", i, op.Kind, op.Path, matches, panicked)
+			}
+			if panicked {
+				st.visitStopped = true
+				st.visitPanicked = true
+				stopped = true
+			}
 		case "qstop", "wstop", "wsstop":
 			// a visitor that stops the visit: the call returns the visitor's error, has made
 			// exactly min(Val, matches) invocations, and leaves the tree fully usable
